@@ -522,6 +522,7 @@ let process_trace header lines =
   let tainted = ref [] in
   let excess = ref [] in
   let covtags = ref [] in
+  let prev_core = ref None in
   let pending_resp = ref None and wait_job = ref None and completed_model = ref [] in
   let cur_resp = ref "" in
   let check_state () =
@@ -566,6 +567,36 @@ let process_trace header lines =
           else add_mon (Printf.sprintf "M C02 FAIL hq-core-bijection step=%d" !stepno)
         end;
         if not (single_execution_ok isys) then add_mon (Printf.sprintf "M C06 FAIL two-executions step=%d" !stepno);
+        (* C07 (theorem crash_counter_rule as a monitor on the implementation's snapshots): the crash
+           counter of a surviving task changes only by +1, only when a worker is lost for a failure
+           reason, only for a task that was running *)
+        (match !prev_core with
+        | Some pc ->
+            List.iter
+              (fun t ->
+                match find_task pc.c_tasks t.t_id with
+                | Some t0 ->
+                    let d = int_of_n t.t_crash - int_of_n t0.t_crash in
+                    let running0 = (match t0.t_state with Running _ | RunningMN _ -> true | _ -> false) in
+                    let failure_loss = (match !cur_op with Some (OpLost (_, r, _, _, _)) -> int_of_n r = 1 || int_of_n r = 2 | _ -> false) in
+                    if d <> 0 && not (d = 1 && failure_loss && running0) then
+                      add_mon (Printf.sprintf "M C07 FAIL crash-counter-rule delta=%d failure-loss=%b was-running=%b" d failure_loss running0)
+                | None -> ())
+              c.c_tasks
+        | None -> ());
+        prev_core := Some c;
+        (* C02, progress half: when the system is at rest (no message in flight, nothing running, the
+           scheduler has nothing to do) no task may be in an in-between state: every task left in the
+           core is waiting (for a dependency, or for a worker that can run it) *)
+        let at_rest = (not ms.s_core.c_flag) && ms.s_procs <> [] && List.for_all (fun p -> p.p_down = [] && p.p_up = [] && p.p_futures = []) ms.s_procs in
+        if at_rest then begin
+          if not (List.mem "at-rest" !covtags) then covtags := "at-rest" :: !covtags;
+          List.iter
+            (fun t -> match t.t_state with
+               | Waiting _ -> ()
+               | st -> add_mon (Printf.sprintf "M C02 FAIL task-in-limbo-at-rest state=%s" (st_name st)))
+            c.c_tasks
+        end;
         ignore ms
     | _ -> ()
   in
@@ -627,6 +658,8 @@ let process_trace header lines =
               match (!state, o) with
               | Some s, Some o -> (
                   (match o with OpLost _ | OpCancel _ | OpEnd (_, _, (EndFail | EndFollowStop)) | OpFailNext _ | OpTimer -> nontrivial := true | _ -> ());
+                  (* the executable hypothesis of the core-level invariant theorems (RejHyp.v) *)
+                  if not (step_fresh s o) then List.iter (fun p -> add_mon (Printf.sprintf "M %s FAIL hypothesis-step_fresh-violated step=%d" p !stepno)) [ "C02"; "C03"; "C05" ];
                   match step s o with
                   | Ok (s', outs) ->
                       List.iter (fun t -> if not (List.mem t !covtags) then covtags := t :: !covtags) (tags_of s o (snd (s', outs)) s');
